@@ -286,6 +286,7 @@ type c01World struct {
 	writes   []*c01Write
 	tickSeen map[uint64]bool
 	notes    map[string]int
+	lastErr  map[string]string // last error an operator answered to a sender (runner id)
 	closing  chan struct{}
 	runningC chan struct{}
 }
@@ -757,6 +758,9 @@ func (o *c01OpClient) senderDead() bool {
 func (o *c01OpClient) HandleEventBatch(ctx context.Context, batch []*workerpb.Event) error {
 	for _, e := range batch {
 		if o.target.killed.Load() || o.senderDead() {
+			o.w.mu.Lock()
+			o.w.lastErr[o.sender] = "unreachable operator " + o.target.opID
+			o.w.mu.Unlock()
 			return errC01Unreachable
 		}
 		if err := o.target.w.Operator.HandleEvent(ctx, o.sender, e); err != nil {
@@ -767,6 +771,7 @@ func (o *c01OpClient) HandleEventBatch(ctx context.Context, batch []*workerpb.Ev
 				}
 				o.w.mu.Lock()
 				o.w.notes["HandleEvent error: "+msg]++
+				o.w.lastErr[o.sender] = err.Error()
 				o.w.mu.Unlock()
 				if os.Getenv("C01_DEBUG") != "" {
 					fmt.Fprintf(os.Stderr, "HandleEvent %s -> %s: %v\n", o.sender, o.target.opID, err)
@@ -1011,7 +1016,17 @@ func (w *c01World) newWorker() *c01Worker {
 	wk.cancel = cancel
 	go func() {
 		func() {
-			defer func() { recover() }()
+			defer func() {
+				if p := recover(); p != nil { // a panic of the worker process is an output, not a quiet stop
+					msg := fmt.Sprint(p)
+					if len(msg) > 80 {
+						msg = msg[:80]
+					}
+					w.mu.Lock()
+					w.log("!worker-panic:%d:%s", wk.num, strings.ReplaceAll(msg, " ", "_"))
+					w.mu.Unlock()
+				}
+			}()
 			wk.w.Start(ctx)
 		}()
 		// the worker process ended. If nobody halted it, it stopped itself (fail-fast: its source runner got an
@@ -1020,7 +1035,39 @@ func (w *c01World) newWorker() *c01Worker {
 		w.mu.Lock()
 		if !wk.killed.Load() {
 			wk.killed.Store(true)
-			w.log("x:%d", wk.num)
+			// Why did it stop? Explained: another member of its deployment is dead (its runner met an unreachable
+			// operator), the job is down, or the cluster is being torn down. `xr`: nobody was dead, but its runner was
+			// answered "operator not ready" - the runner's watermark ticker starts at its own Deploy and can reach an
+			// operator that is still loading (a start-up race of the code, counted). `xu`: anything else - reported.
+			explained := w.jobDown
+			select {
+			case <-w.closing:
+				explained = true
+			default:
+			}
+			for _, o := range w.workers {
+				if o != wk && o.killed.Load() && o.dep == wk.dep {
+					explained = true
+				}
+			}
+			cause := w.lastErr[wk.srID]
+			switch {
+			case explained || strings.Contains(cause, "unreachable"): // its runner met a dead operator
+				w.log("x:%d", wk.num)
+			case strings.Contains(cause, "not ready"):
+				w.log("xr:%d", wk.num)
+				w.notes["self-stop in a healthy deployment: runner was answered 'operator not ready' (start-up race)"]++
+			case strings.Contains(cause, "abandoned by a new deployment") || wk.deploys > 1 || wk.srDeploys > 1:
+				w.log("x:%d", wk.num) // a process that was redeployed live (D39 situation)
+			default:
+				if cause == "" {
+					cause = "no-error-seen"
+				}
+				if len(cause) > 60 {
+					cause = cause[:60]
+				}
+				w.log("xu:%d:%s", wk.num, strings.ReplaceAll(cause, " ", "_"))
+			}
 			w.dropAcksLocked(wk)
 		}
 		w.mu.Unlock()
@@ -1134,7 +1181,7 @@ func newC01World(n, kgc, nsplits, batch, readBatch, nkeys, rot int) (*c01World, 
 	if err != nil {
 		return nil, err
 	}
-	w := &c01World{dir: dir, byID: map[string]*c01Worker{}, tickSeen: map[uint64]bool{}, notes: map[string]int{}, lastIdx: map[[2]int]int{},
+	w := &c01World{dir: dir, byID: map[string]*c01Worker{}, tickSeen: map[uint64]bool{}, notes: map[string]int{}, lastErr: map[string]string{}, lastIdx: map[[2]int]int{},
 		closing: make(chan struct{}), errCh: make(chan error, 64)}
 	w.cfg.kgc, w.cfg.nsplits, w.cfg.batch, w.cfg.readBatch, w.cfg.nkeys, w.cfg.rot = kgc, nsplits, batch, readBatch, nkeys, rot
 	w.splits = make([][]int, nsplits)
@@ -1155,7 +1202,17 @@ func newC01World(n, kgc, nsplits, batch, readBatch, nkeys, rot int) (*c01World, 
 	return w, nil
 }
 
+// finished clusters stay reachable until the process ends: a halted operator may still be finishing an event or a
+// background task, and once its database objects are garbage collected their cleanups delete table files under it
+var (
+	c01RetiredMu sync.Mutex
+	c01Retired   []*c01World
+)
+
 func (w *c01World) close() {
+	c01RetiredMu.Lock()
+	c01Retired = append(c01Retired, w)
+	c01RetiredMu.Unlock()
 	w.mu.Lock()
 	w.jobDown = true
 	ws := append([]*c01Worker(nil), w.workers...)
